@@ -48,8 +48,10 @@ def run(model, rep, tier):
     calls = [c for c in walk_local(gg) if isinstance(c, ast.Call) and unparse(c.func) == 'maptranslation']
     if len(calls) != 1:
         raise AnalysisError('Crystal.gengroup: maptranslation call not found')
-    dots = [d for d in ast.walk(calls[0].args[1]) if isinstance(d, ast.Call) and unparse(d.func) == 'np.dot']
-    ok = len(dots) == 1 and unparse(dots[0].args[0]) == rotname
+    from ._common import resolve_local
+    # the trial positions are whatever reaches the second argument (written in place or through a local bound once)
+    dots = [d for d in ast.walk(resolve_local(gg, calls[0].args[1])) if isinstance(d, ast.Call) and unparse(d.func) == 'np.dot']
+    ok = len(dots) == 1 and unparse(dots[0].args[0]) == unparse(resolve_local(gg, ctor[0].args[0]))
     rep.ob('operator-composition', mod, calls[0], 'gengroup: trial positions are %s . u (unit-cell coordinates)' % rotname, ok,
            '' if ok else 'atom positions (unit-cell coordinates) are not transformed by the integer rotation', engine='coordkind',
            qual='Crystal.gengroup')
@@ -89,7 +91,9 @@ def run(model, rep, tier):
            qual='Crystal.__init__')
     ident = ci.methods.get('ident')
     from ..engines import pattern
-    ok = pattern.has(ident, 'tuple((tuple((_N_i for _N_i in range(len(_N_a)))) for _N_a in _N_basis))', 'expr')
+    # identity permutation of every species, written as a generator over range(len(.)) or as the range itself
+    ok = pattern.has(ident, 'tuple((tuple((_N_i for _N_i in range(len(_N_a)))) for _N_a in _N_basis))', 'expr') or \
+        pattern.has(ident, 'tuple((tuple(range(len(_N_a))) for _N_a in _N_basis))', 'expr')
     rep.ob('operator-composition', mod, ident, 'GroupOp.ident: indexmap is the identity permutation of every species', ok,
            '' if ok else 'identity operation does not map every atom to itself', engine='flow', qual='GroupOp.ident')
 
